@@ -11,6 +11,7 @@ import (
 	"strconv"
 	"strings"
 	"sync"
+	"time"
 )
 
 // Partial is what one worker process reports back to the parent.
@@ -136,6 +137,7 @@ func (r *Run) RunSharded(n int, worker func(sh ShardInfo, p *Partial)) *Partial 
 			os.Stdout = dn // the engine prints diagnostics with fmt.Printf; workers report through the partial only
 		}
 		worker(ShardInfo{i, c}, p)
+		p.Max(fmt.Sprintf("max_shard_wall_ms_%02d", i), time.Since(r.start).Milliseconds())
 		p.TimedOut = p.TimedOut || r.TimedOut()
 		if r.scratch != "" {
 			_ = os.RemoveAll(r.scratch)
